@@ -92,8 +92,10 @@ def run(rep, work, tier, seed, only=None):
                     what = ('in the %s sector the decoder returned flips on %s (likelihood odds %.6g) but flips on %s have the same syndrome and '
                             'odds %.6g: not a minimum-weight correction' % (sect, corr, float(pc), better, float(best)))
                     break
-            rep.violation(key, 'MatchingDecoder on %s, error X%s Z%s: %s' % (desc, cse['ex'], cse['ez'], what or 'opt_ok false'),
-                          {'config': desc, 'error': {'x': cse['ex'], 'z': cse['ez']}, 'returned': {'x': cse['cx'], 'z': cse['cz']}, 'better': better},
+            rep.violation(key, 'MatchingDecoder (decoder #%d built from the same code, noise-model object and rate) on %s, error X%s Z%s: %s'
+                          % (cse.get('decoder_built', 1), desc, cse['ex'], cse['ez'], what or 'opt_ok false'),
+                          {'config': desc, 'decoder_built': cse.get('decoder_built', 1), 'error': {'x': cse['ex'], 'z': cse['ez']},
+                           'returned': {'x': cse['cx'], 'z': cse['cz']}, 'better': better},
                           no_input=what is None)
     for r in data['correctable']:
         desc = {'decoder': r['decoder'], 'cls': r['cls'], 'size': r['size'], 'd': r.get('d'), 't': r.get('t')}
